@@ -1,5 +1,5 @@
 #!/usr/bin/env python3
-"""Cross-property mutation sweep: a mutant of file f (generated from property p's anchored ranges) is a candidate
+"""Cross-property mutation sweep (SWEEP_WHOLE=1: whole anchored files instead of the anchored line ranges): a mutant of file f (generated from property p's anchored ranges) is a candidate
 gap only if EVERY property anchored in f stays silent on it. Prints those, then checks them against the pinned tests."""
 import json, os, subprocess, sys, tempfile, shutil, concurrent.futures as cf
 V='/verif'
@@ -14,7 +14,14 @@ def check(prop, file, mut):
     r=subprocess.run([V+'/bin/typcheck','-prop',prop,'-verif',out,'-nofixtures','-overlay',f'{file}={mut}'],capture_output=True,text=True)
     shutil.rmtree(out)
     return r.returncode
-only=sys.argv[1:] 
+only=sys.argv[1:]
+# triaged survivors: description<TAB>verdict (equivalent / outside the properties / now refuted)
+triaged={}
+tf=os.path.join(os.path.dirname(os.path.abspath(__file__)),'xsweep_triaged.tsv')
+if os.path.exists(tf):
+    for l in open(tf):
+        if '\t' in l:
+            k,v=l.rstrip('\n').split('\t',1); triaged[k]=v
 seen=set()
 cands=[]
 for p in props:
@@ -22,7 +29,7 @@ for p in props:
     if only and pid not in only: continue
     d=f'/tmp/gm/{pid}'
     shutil.rmtree(d,ignore_errors=True); os.makedirs(d)
-    subprocess.run([V+'/bin/typcheck','-prop',pid,'-genmutants',d],capture_output=True,env=dict(os.environ,SWEEP_MAX='2000'))
+    subprocess.run([V+'/bin/typcheck','-prop',pid,'-genmutants',d],capture_output=True,env=dict(os.environ,SWEEP_MAX='20000'))
     idx=[l.rstrip('\n').split('\t') for l in open(d+'/index.txt')] if os.path.exists(d+'/index.txt') else []
     jobs=[]
     for name,file,desc in idx:
@@ -56,4 +63,6 @@ for pid,name,file,desc in cands:
     except subprocess.TimeoutExpired:
         rc=99
     subprocess.run(['git','-C',wt,'checkout','-q','--','.'])
-    print(('TESTS-PASS' if rc==0 else 'tests-kill'), pid, desc, flush=True)
+    tag='TESTS-PASS' if rc==0 else 'tests-kill'
+    if rc==0 and desc in triaged: tag='triaged   '
+    print(tag, pid, desc, ('# '+triaged[desc]) if desc in triaged and rc==0 else '', flush=True)
